@@ -548,7 +548,7 @@ pub fn run(args: &Args) -> Report {
     let miri = cfg!(miri);
     let mut rng = Rng::new(args.seed).sub(1 + args.shard as u64 * 1000);
     CTX.log_on.store(false, SeqCst);
-    let rounds = if miri { 2 } else { args.n(400, 12_000) };
+    let rounds = if miri { 2 } else { args.n(400, 2_500) };
     let mut racy_rounds = 0u64;
     let mut lin = (0u64, 0u64);
     for round in 0..rounds {
@@ -563,7 +563,7 @@ pub fn run(args: &Args) -> Report {
     rep.count("rounds_with_overlapping_creations", racy_rounds);
     rep.count("per_key_histories_linearizable", lin.0);
     rep.count("per_key_histories_checker_inconclusive", lin.1);
-    let forced = if miri { 2 } else { args.n(60, 2500) };
+    let forced = if miri { 2 } else { args.n(60, 600) };
     let mut verified = 0u64;
     for round in 0..forced {
         rep.eval();
@@ -583,7 +583,7 @@ pub fn run(args: &Args) -> Report {
     let il = rep.n_interleavings();
     rep.count("distinct_interleavings", il);
     let _ = fnv_str;
-    rep.floor("forced_miss_rounds_verified_simultaneous", verified, if miri { 1 } else { args.n(50, 2000) as u64 });
+    rep.floor("forced_miss_rounds_verified_simultaneous", verified, if miri { 1 } else { args.n(50, 500) as u64 });
     rep.floor_set("shard_counts", if miri { 1 } else { 3 });
     rep.floor("rounds_with_overlapping_creations", racy_rounds, if miri { 0 } else { (rounds / 10) as u64 });
     rep.floor("distinct_interleavings", il, if miri { 1 } else { 20 });
